@@ -109,13 +109,13 @@ func (s Served) Body(version int16) []byte { return EncodeResponse(version, s.Th
 // ------------------------------------------------------------------ parse-level scenario
 
 type ParseScenario struct {
-	Gen          *Generated
-	Version      int16 // fetch response version
+	Gen           *Generated
+	Version       int16 // fetch response version
 	ReadCommitted bool
-	FetchDefault int32
-	FetchMax     int32
-	Start        int64
-	Script       []Directive
+	FetchDefault  int32
+	FetchMax      int32
+	Start         int64
+	Script        []Directive
 }
 
 type ParseCaseJSON struct {
